@@ -344,18 +344,88 @@ def run(F, R, tier):
         nexts = [n for n in H.walk(H.root(h)) if n.get("k") == "mcall" and n["name"] == "next"]
         r6.site("is_valid_url_segment: uses is_valid_percent_encoded_char: %s; skips %d chars after an escape" % ("is_valid_percent_encoded_char" in fns, max(0, len(nexts) - 1)))
         r6.require("is_valid_percent_encoded_char" in fns, (fn, "percent"), "is_valid_url_segment does not validate percent escapes")
-    # method-id validator has its own escape handling
+    # method-id validator: evaluated abstractly over a positional character stream for every string of up to 4 characters, each
+    # character known only through the three tests the code can make (== '%', is_ascii_hexdigit, is_char_method_id); accepted
+    # exactly when the string matches ( idchar | "%" HEXDIG HEXDIG )*
     fn = DID + "::valid_method_id"
-    h = F.hir(fn)
-    if r6.anchor(h, fn):
-        fns = {f.rsplit("::", 1)[-1] for f in L.called_fns_deep(F, fn)}
-        uses_radix = "from_str_radix" in fns
-        uses_shared = "is_valid_percent_encoded_char" in fns or "is_ascii_hexdigit" in fns
-        r6.site("valid_method_id escape check: from_str_radix=%s hexdigit/shared=%s" % (uses_radix, uses_shared))
-        lens = [x for x in L.literals_deep(F, fn) if x == 2]
-        r6.require(len(lens) >= 2 or "is_valid_percent_encoded_char" in fns, (fn, "escape-length"), "valid_method_id does not require exactly two characters after '%'")
-        r6.require(uses_shared and not uses_radix, (fn, "escape-check"),
-                   "valid_method_id validates a percent escape with u8::from_str_radix over `take(2)`: that accepts a truncated escape (\"%4\") and a sign (\"%+4\"), which are not `%` HEXDIG HEXDIG")
+    if r6.anchor(F.hir(fn), fn):
+        idset = CP.fn_accepted_set(F, "identity_did::did::is_char_method_id")
+        idset = idset[0] if isinstance(idset, tuple) else idset
+        r6.require(idset is not None and ord("%") not in idset and all(ord(c) in idset for c in "0123456789abcdefABCDEF"), (fn, "classes"),
+                   "is_char_method_id must contain the hex digits and not '%' for the class model of the escape check")
+        LMAX = 4
+        ev = sym.Evaluator(F, opaque=r"is_char_method_id$|is_ascii_hexdigit$", inline_depth=4, loop_bound=LMAX + 2, char_streams=True)
+        ev.max_stream_len = LMAX
+        try:
+            paths = [q for q in ev.explore(fn, max_paths=40000) if q.complete]
+        except (sym.Abort, sym.TooManyPaths) as e:
+            paths = []
+            r6.fail((fn, "not-evaluable"), "valid_method_id could not be evaluated over a character stream: %s" % e)
+        SRC = ("param", "value")
+
+        def atoms(q):
+            has, cls = {}, {}
+            for (a, c, _, _) in q.decisions:
+                if a[0] == "has" and a[1] == SRC:
+                    has[a[2]] = bool(c)
+                elif a[0] == "eq":
+                    for x, y in ((a[1], a[2]), (a[2], a[1])):
+                        if isinstance(x, tuple) and x[:2] == ("at", SRC) and y == ("lit", "%"):
+                            cls[(x[2], "pct")] = bool(c)
+                elif a[0] == "truth" and isinstance(a[1], tuple) and a[1][:1] == ("call",) and len(a[1][2]) == 1 and isinstance(a[1][2][0], tuple) and a[1][2][0][:2] == ("at", SRC):
+                    k = a[1][2][0][2]
+                    nm = re.sub(r"<[^<>]*>", "", a[1][1]).rsplit("::", 1)[-1]
+                    if nm == "is_ascii_hexdigit":
+                        cls[(k, "hex")] = bool(c)
+                    elif nm == "is_char_method_id":
+                        cls[(k, "id")] = bool(c)
+                    else:
+                        cls[(k, "?" + nm)] = bool(c)
+                else:
+                    cls[("?", sym.fmt(a))] = c
+            return has, cls
+        CLASSES = {"P": {"pct": True, "hex": False, "id": False}, "H": {"pct": False, "hex": True, "id": True}, "I": {"pct": False, "hex": False, "id": True}, "O": {"pct": False, "hex": False, "id": False}}
+
+        def grammar(w):
+            i = 0
+            while i < len(w):
+                if w[i] == "P":
+                    if i + 2 < len(w) + 0 and w[i + 1] == "H" and w[i + 2] == "H":
+                        i += 3
+                    elif i + 2 <= len(w) - 1 and w[i + 1] == "H" and w[i + 2] == "H":
+                        i += 3
+                    else:
+                        return False
+                elif w[i] in ("H", "I"):
+                    i += 1
+                else:
+                    return False
+            return True
+        import itertools
+        words = [w for n in range(LMAX + 1) for w in ("".join(t) for t in itertools.product("PHIO", repeat=n))]
+        tables = [(q, atoms(q)) for q in paths]
+        bad = 0
+        covered = 0
+        for w in words:
+            hit = False
+            for q, (has, cls) in tables:
+                if any(k[0] == "?" or (isinstance(k[1], str) and k[1].startswith("?")) for k in cls):
+                    continue
+                if any((k < len(w)) != v for k, v in has.items()):
+                    continue
+                if any(k >= len(w) or CLASSES[w[k]][what] != v for (k, what), v in cls.items()):
+                    continue
+                hit = True
+                acc = SR.is_success(q.ret) and not SR.is_failure(q.ret)
+                if acc != grammar(w):
+                    bad += 1
+                    r6.fail((fn, "escape-check" if "P" in w else "classes"), "valid_method_id %s a method id of the shape %s (P = '%%', H = hex digit, I = other idchar, O = other): not ( idchar | \"%%\" HEXDIG HEXDIG )* — path: %s" % (
+                        "accepts" if acc else "rejects", w or "(empty)", q.describe()[:200]))
+            if hit:
+                covered += 1
+            elif paths:
+                r6.fail((fn, "no-path"), "no evaluated path of valid_method_id applies to a method id of the shape %r" % w)
+        r6.site("valid_method_id ≡ ( idchar | %%HH )* on all %d class-strings of length ≤ %d (%d paths): %s" % (len(words), LMAX, len(paths), bad == 0 and covered == len(words)))
     r6.floor(8)
 
 
